@@ -96,4 +96,16 @@ def setKey (k v : Bytes) : Headers → Headers
   | [] => [(k, v)]
   | h :: hs => if lower h.1 == k then (k, v) :: hs.filter (fun x => lower x.1 != k) else h :: setKey k v hs
 
+/-- split at the first occurrence of byte `c` -/
+def splitAt1 (c : Nat) : Bytes → Option (Bytes × Bytes)
+  | [] => none
+  | b :: bs => if b = c then some ([], bs) else (splitAt1 c bs).map (fun p => (b :: p.1, p.2))
+
+/-- split at the first occurrence of the two bytes `x y` -/
+def split2 (x y : Nat) : Bytes → Option (Bytes × Bytes)
+  | [] => none
+  | b :: rest =>
+    if b = x ∧ rest.head? = some y then some ([], rest.tail)
+    else (split2 x y rest).map (fun p => (b :: p.1, p.2))
+
 end Hio.Http
